@@ -29,7 +29,7 @@ type descriptor struct {
 	Truth    []bool   `json:"truth"`    // value of condition i
 	Tokens   int      `json:"tokens"`   // tokens arriving concurrently
 	Lang     string   `json:"lang"`     // expr | xpath
-	Kind     []string `json:"kind"`     // per condition: "var" | "cmp" | "compound" | "informal" | "dataobject"
+	Kind     []string `json:"kind"`     // per condition: "var" | "cmp" | "compound" | "informal" | "dataobject" | "body" | ...
 	DeclSeed int      `json:"declSeed"` // declaration order permutation
 	Burst    bool     `json:"burst"`    // answer the upstream tasks concurrently
 	Funnel   bool     `json:"funnel"`   // the tokens first merge in another exclusive gateway and reach the gateway under test over ONE incoming flow
@@ -144,7 +144,7 @@ func build(d descriptor) *built {
 		}
 		f.Formal = true
 		f.Lang = ""
-		if ci < len(d.FlowLang) && kind != "dataobject" && kind != "unevaluable" {
+		if ci < len(d.FlowLang) && kind != "dataobject" && kind != "body" && kind != "unevaluable" {
 			f.Lang = d.FlowLang[ci]
 		}
 		switch kind {
@@ -192,6 +192,22 @@ func build(d descriptor) *built {
 			f.Cond = gen.Lit(truth)
 			f.Formal = false
 			truth = true
+		case "body":
+			// a data object declared in the document with a JSON body of its own;
+			// the condition reads a key that only the bodies of objects whose
+			// condition is meant to hold define (and a decoy nobody reads)
+			name := fmt.Sprintf("bo%d", ci)
+			if root.G.DataObjectBodies == nil {
+				root.G.DataObjectBodies = map[string]string{"bo_a_decoy": `{"flag": true, "n": 7}`, "bo_z_decoy": `{"flag": true}`}
+			}
+			if truth {
+				root.G.DataObjectBodies[name] = fmt.Sprintf(`{"flag": true, "own%d": %d}`, ci, ci)
+			} else {
+				root.G.DataObjectBodies[name] = fmt.Sprintf(`{"own%d": %d}`, ci, ci)
+			}
+			f.Cond = gen.Lit(truth)
+			f.Lang = "expr"
+			f.Raw = fmt.Sprintf(`getDataObject("%s").flag == true`, name)
 		case "dataobject":
 			name := fmt.Sprintf("do%d", ci)
 			bt.Objects[name] = truth
@@ -541,6 +557,7 @@ func TestC04Random(t *testing.T) {
 			// (the repository's own XPath getDataObject test is skipped as "doesn't quite work yet")
 			kinds = append(kinds, "dataobject")
 		}
+		kinds = append(kinds, "body")
 		mixed := rapid.IntRange(0, 2).Draw(rt, "mixedLanguages") == 0
 		for i := 0; i < nc; i++ {
 			d.Truth = append(d.Truth, rapid.Bool().Draw(rt, "truth"))
